@@ -279,3 +279,87 @@ def scripts_merge_sorted_and_complete(tags):
     for w in dflt_want:
         conds.append(disj([eq(w, x) for x in lookups(out.DefaultLangSys)]))
     ob('every-input-feature-kept', conj(conds))
+
+
+# ------------------------------------------------------------------------------------------------ CFF advance widths
+import fontTools.cffLib as CFFL
+import fontTools.misc.psCharStrings as PS
+shim_all(PS)
+
+
+class _CFFSet(list):
+    GlobalSubrs = []
+
+    def desubroutinize(self):
+        pass
+
+
+def _cff_font(fi, default, nominal, glyphs):
+    """a CFF table stand-in around REAL TopDict / PrivateDict / CharStrings / T2CharString objects; glyphs: name -> program"""
+    priv = CFFL.PrivateDict()
+    priv.defaultWidthX, priv.nominalWidthX = default, nominal
+    top = CFFL.TopDict()
+    top.Private = priv
+    top.charset = list(glyphs)
+    top.strings = CFFL.IndexedStrings()
+    top.strings.strings = list(glyphs)
+    cs = CFFL.CharStrings(None, top.charset, [], priv, None, None)
+    for n, prog in glyphs.items():
+        c = PS.T2CharString(program=list(prog), private=priv, globalSubrs=[])
+        cs[n] = c
+    top.CharStrings = cs
+    t = Rec(cff=_CFFSet([top]))
+    return t
+
+
+def _spec_width(program, default, nominal):
+    """Type 2 spec (TN5177 section 3.1 / 4.1): the first stack-clearing operator is hmoveto here and takes ONE argument; one extra
+    argument before it is the width as a difference from nominalWidthX; no extra argument means defaultWidthX.  Anything else is malformed."""
+    i = program.index('hmoveto')
+    if i == 1:
+        return default, program[0]
+    if i == 2:
+        return nominal + program[0], program[1]
+    return None, None
+
+
+@kernel('C18', funcs=['merge/tables.py:merge', 'misc/psCharStrings.py:T2WidthExtractor.popallWidth', 'misc/psCharStrings.py:SimpleT2Decompiler.execute'],
+        bounds='two CFF tables (real TopDict / PrivateDict / CharStrings / T2CharString objects; charstrings without subroutines, CID-keyed fonts refused by the code), '
+               'defaultWidthX and nominalWidthX of BOTH fonts symbolic in [0, 1200], the second font has two glyphs "hmoveto endchar", one with an explicit width '
+               'operand w in [-1200, 1200] and one without (per parameter also both with / both without): after the CFF merge step every glyph of the second font, '
+               'read by the Type 2 width rule under the FIRST font\'s Private dict (which the merged font uses), has the advance width it had in its own font, is '
+               'still well-formed (no operand left over) and keeps its drawing operand; the first font\'s glyphs are untouched',
+        shims=[], quick=[dict(kinds='wn')], thorough=[dict(kinds=k) for k in ('wn', 'ww', 'nn', 'nw')], max_paths=20000)
+def cff_merge_keeps_advance_widths(kinds):
+    d0, n0 = V.int('default0', 0, 1200), V.int('nominal0', 0, 1200)
+    d1, n1 = V.int('default1', 0, 1200), V.int('nominal1', 0, 1200)
+    progs0 = {'.notdef': [50, 'hmoveto', 'endchar'], 'A': [V.int('wA', -1200, 1200), 60, 'hmoveto', 'endchar']}
+    progs1 = {}
+    for i, kd in enumerate(kinds):
+        if kd == 'w':
+            progs1['g%d' % i] = [V.int('w%d' % i, -1200, 1200), 70 + i, 'hmoveto', 'endchar']
+        else:
+            progs1['g%d' % i] = [70 + i, 'hmoveto', 'endchar']
+    want = {n: _spec_width(p, d1, n1) for n, p in progs1.items()}
+    want0 = {n: _spec_width(p, d0, n0) for n, p in progs0.items()}
+    t0, t1 = _cff_font(0, d0, n0, progs0), _cff_font(1, d1, n1, progs1)
+    from fontTools.merge import Merger
+    merged = MT.ttLib.getTableClass('CFF ').merge(t0, Merger(), [t0, t1])
+    top = merged.cff[0]
+    ob('merged-charset', list(top.charset) == ['.notdef', 'A', 'g0', 'g1'] and top.numGlyphs == 4)
+    conds, keep = [], []
+    for n, (w, arg) in want.items():
+        prog = list(top.CharStrings[n].program)
+        gotw, gotarg = _spec_width(prog, d0, n0)
+        if gotw is None:
+            conds.append(False)
+            continue
+        conds.append(eq(gotw, w))
+        keep.append(eq(gotarg, arg))
+    ob('second-font-widths-kept', conj(conds))
+    ob('second-font-drawing-operands-kept', conj(keep))
+    conds = []
+    for n, (w, arg) in want0.items():
+        gotw, gotarg = _spec_width(list(top.CharStrings[n].program), d0, n0)
+        conds.append(gotw is not None and conj([eq(gotw, w), eq(gotarg, arg)]))
+    ob('first-font-untouched', conj(conds))
